@@ -62,6 +62,10 @@ PRE = {
     'packed-holes': [('topack', (1, 2), False, False, True), ('topack', (3,), False, False, True), ('delete', (2,)), ('add', 1)],
     # everything loose
     'all-loose': [('add', 0), ('add', 1), ('add', 2), ('add', 3)],
+    # objects both loose and packed, the last pack exactly full, one compressed object re-loosened
+    'both-forms': [('add', 1), ('add', 3), ('pack', 'YES', False, True), ('add', 2), ('loosen', 3), ('topack', (0,), True, False, True)],
+    # nothing at all
+    'empty': [],
 }
 
 
@@ -104,11 +108,28 @@ def scenarios(tier: str):
         add('import-same', pre, ('import', (0, 1, 2, 3), False, 104857600, 'same'), t)
         add('import-other-smallbudget', pre, ('import', (0, 1, 2, 3), True, 13, 'other'))
         add('loosen-packed', pre, ('loosen', 3), t)
+        if pre in ('both-forms', 'empty'):
+            continue
+        add('import-same-budget13-compress', pre, ('import', (3, 0, 1, 2), True, 13, 'same'))
+        add('import-other-budget1', pre, ('import', (0, 1, 2, 3, ABSENT_IDX), False, 1, 'other'))
+        add('repack_pack1-YES', pre, ('repack_pack', 1, 'YES'))
+        add('pack-KEEP-perpack1', pre, ('pack', 'KEEP', True, True))
+        add('topack-batch-twice-nh1-tw0-c1', pre, ('topack', (N, N, 2, N, 3), True, True, False))
+        add('stopack-lazy-plain', pre, ('stopack', (2, N, 0), False, False, True, True))
+        add('sotopack-compress', pre, ('sotopack', N, True, False, True))
     # pack after packing: scenario where pack_all_loose crosses into a new pack with existing objects
     out.append(Scenario('add-damaged-copy@mixed', PRE['mixed'] + [('damage', 1)], ('add', 1), universe=universe5(),
                         tags=('quick', 'damaged')))
     if tier == 'quick':
         out = [s for s in out if 'quick' in s.tags]
+    else:
+        # thorough: every scenario additionally under other configurations (flat loose folder + sha1; one big pack)
+        extra = []
+        for cfg_name, cfg in (('p0-sha1', {'loose_prefix_len': 0, 'hash_type': 'sha1'}), ('bigpack-zlib9', {'pack_size_target': 4 * 1024 ** 3, 'compression_algorithm': 'zlib+9'}),
+                              ('p3-target60', {'loose_prefix_len': 3, 'pack_size_target': 60})):
+            for s in out:
+                extra.append(Scenario(f'{s.name}[{cfg_name}]', s.setup, s.op, config=cfg, universe=s.universe, tags=s.tags))
+        out += extra
     return out
 
 
@@ -182,7 +203,8 @@ def _build(sc: Scenario):
     for op in sc.setup:
         if op[0] == 'damage':
             k = w.model.keys[op[1]]
-            p = os.path.join(w.root, 'loose', k[:2], k[2:])
+            pl = w.config['loose_prefix_len']
+            p = os.path.join(w.root, 'loose', k[:pl], k[pl:]) if pl else os.path.join(w.root, 'loose', k)
             with REAL['open'](p, 'wb') as fh:
                 fh.write(b'damaged!')
             continue
